@@ -36,3 +36,4 @@ done
 git -C /repo checkout -- .
 echo "RESULT $id$res"
 echo "$res" > /verif/seeded/$id/check_result.txt
+python3 /verif/seeding/mkmeta.py $id
